@@ -939,12 +939,13 @@ let main_conc file =
     let deepest = ref 0 and deepest_stuck = ref "" in
     let found = ref false in
     let final_mismatch = ref "" in
+    let path = Array.make (max n 1) 0 and witness = ref [] in
     let rec search (s : afs) (donev : bool array) (k : int) =
       if !found || !nodes > budget then () else begin
         incr nodes;
         if k = n then begin
           let mm = cmp_state s ar in
-          if mm = [] then found := true
+          if mm = [] then (found := true; witness := Array.to_list (Array.sub path 0 n))
           else if !final_mismatch = "" then final_mismatch := Stdlib.String.concat "," (List.map show_mm (take 4 mm))
         end else begin
           (* an operation may come next if no other pending operation had returned before it was invoked *)
@@ -956,6 +957,7 @@ let main_conc file =
                 | Some c, Some r ->
                   let (s', rr) = step !params s c (hint_of c r) in
                   if agree s' rr r then begin
+                    path.(k) <- i;
                     donev.(i) <- true; search s' donev (k + 1); donev.(i) <- false
                   end else if k >= !deepest then begin
                     deepest := k;
@@ -966,7 +968,16 @@ let main_conc file =
         end
       end in
     search !st (Array.make n false) 0;
-    if !found then Printf.printf "N lin OK ops=%d nodes=%d txns=%d\n" n !nodes !ntxn
+    (* the order found is only believed if the extracted certificate checker accepts it (Proofs/LinProofs.v) *)
+    let certified = !found && begin
+        let rec nat_of_int k = if k = 0 then O else S (nat_of_int (k - 1)) in
+        let hops = List.map (fun o -> match o.hcall, o.hrep with
+            | Some c, Some r -> { h_inv = n_of_int o.hinv; h_ret = n_of_int o.hret; h_call = c; h_rep = r }
+            | _ -> failwith "hop") (Array.to_list ops) in
+        lin_check !params hops !st (fun s -> cmp_state s ar = []) (List.map nat_of_int !witness)
+      end in
+    if !found && not certified then Printf.printf "N lin BAD search-found-an-order-the-certificate-checker-rejects ops=%d\n" n
+    else if !found then Printf.printf "N lin OK ops=%d nodes=%d txns=%d certified=1\n" n !nodes !ntxn
     else if !nodes > budget then Printf.printf "N lin UNKNOWN ops=%d nodes=%d (search budget exhausted)\n" n !nodes
     else Printf.printf "N lin BAD no-sequential-order-explains-the-history ops=%d nodes=%d deepest=%d stuck-at=%s final=%s\n" n !nodes !deepest !deepest_stuck !final_mismatch
   end;
